@@ -82,6 +82,9 @@ struct qb_ringbuffer_s {
 
 void qb_rb_force_close(qb_ringbuffer_t * rb);
 
+/* the longest chunk the ring can hold when it is empty */
+size_t qb_rb_chunk_max(struct qb_ringbuffer_s * rb);
+
 /**
  * Helper to munmap, and conditionally unlink the file or possibly truncate it.
  * @param rb ringbuffer instance.
